@@ -346,6 +346,136 @@ fn turnstile_seeded(c: &mut Collector, seed: u64, shard: u64, n: u64, len: usize
     }
 }
 
+/// Sparse observation: the observer does NOT look after every step.  T1 looks once, optionally hides
+/// behind a scoped override (take + local_enable ... restore), T2 performs exactly `n` global
+/// operations, then every thread (and a freshly spawned one) is compared with the model.  Catches
+/// state that goes stale only after a particular number of unobserved operations (e.g. a wrapping
+/// generation counter).
+fn sparse_observation(c: &mut Collector, max_n: usize, extra: &[usize]) {
+    let ts = Turnstile::new(2);
+    let ns: Vec<usize> = (1..=max_n).chain(extra.iter().copied()).collect();
+    for n in ns {
+        for hide in [false, true] {
+            c.eval();
+            c.count("sparse-observation-cases");
+            c.distinct(fnv(format!("sparse|{n}|{hide}").as_bytes()));
+            let mut m = Model::new(2);
+            ts.reset();
+            let mut sched: Vec<(usize, Op)> = Vec::new();
+            let v0 = ts.views();
+            if v0[0] != m.view(0) || v0[1] != m.view(1) {
+                report_turnstile(c, &sched, (0, 0, v0[0], m.view(0)), 2);
+                return;
+            }
+            if hide {
+                for op in [Op::Take, Op::LocalEnable] {
+                    ts.workers[0].call(Cmd::Do(op));
+                    m.apply(0, op);
+                    sched.push((0, op));
+                }
+            }
+            // n global operations on thread 1, ending in a value different from the start
+            for i in 0..n {
+                let op = if i + 1 == n { Op::Disable } else if i % 7 == 3 { Op::Enable } else { Op::Toggle };
+                ts.workers[1].call(Cmd::Do(op));
+                m.apply(1, op);
+                sched.push((1, op));
+            }
+            if hide {
+                ts.workers[0].call(Cmd::Do(Op::Restore));
+                m.apply(0, Op::Restore);
+                sched.push((0, Op::Restore));
+            }
+            // thread 1 drops its own override so that it reads the global value too
+            ts.workers[1].call(Cmd::Do(Op::Take));
+            m.apply(1, Op::Take);
+            sched.push((1, Op::Take));
+            let v = ts.views();
+            for u in 0..2 {
+                if v[u] != m.view(u) {
+                    let kind = if u == 0 { "override-changed-by-other-thread" } else { "own-view-wrong" };
+                    c.violation(
+                        kind,
+                        "sparse-observation",
+                        format!(
+                            "thread 0 looked, {}thread 1 performed {n} global operations unobserved (last = disable){}: thread {u} sees is_enabled() = {}, model says {}",
+                            if hide { "hid behind take+local_enable, " } else { "" },
+                            if hide { ", thread 0 restored" } else { "" },
+                            v[u],
+                            m.view(u)
+                        ),
+                        obj().set("threads", 2u64).set("schedule", sched.iter().map(|(t, o)| format!("{o:?}@{t}")).collect::<Vec<_>>()),
+                    );
+                    return;
+                }
+            }
+            // a freshly spawned thread has no override and must see the global value
+            let fresh = std::thread::spawn(te::is_enabled).join().unwrap();
+            if fresh != m.global {
+                c.violation(
+                    "own-view-wrong",
+                    "fresh-thread",
+                    format!("after {n} global operations (last = disable) a freshly spawned thread sees is_enabled() = {fresh}, the global setting is {}", m.global),
+                    obj().set("threads", 2u64).set("schedule", sched.iter().map(|(t, o)| format!("{o:?}@{t}")).collect::<Vec<_>>()),
+                );
+                return;
+            }
+        }
+    }
+}
+
+/// Same-setter race: the global flag is `!v`, several threads call the SAME setter (enable or
+/// disable) at the same instant; whatever the interleaving, afterwards a thread without override must
+/// read `v`.  (Catches check-then-flip implementations of a store.)
+fn same_setter_race(c: &mut Collector, rounds: u64) {
+    for r in 0..rounds {
+        let v = r % 2 == 0;
+        let threads = 2 + (r % 3) as usize;
+        // establish global = !v, no override on this thread
+        if v {
+            te::disable();
+        } else {
+            te::enable();
+        }
+        drop(te::local_take());
+        let barrier = Arc::new(Barrier::new(threads));
+        let hs: Vec<_> = (0..threads)
+            .map(|i| {
+                let b = barrier.clone();
+                std::thread::spawn(move || {
+                    b.wait();
+                    // a tiny skew sweep so that loads and stores of different threads overlap
+                    for _ in 0..(i as u64 * (r % 5)) {
+                        std::hint::spin_loop();
+                    }
+                    if v {
+                        te::enable()
+                    } else {
+                        te::disable()
+                    }
+                })
+            })
+            .collect();
+        for h in hs {
+            h.join().unwrap();
+        }
+        c.eval();
+        c.count("same-setter-race-rounds");
+        let seen = te::is_enabled();
+        if seen != v {
+            c.violation(
+                "global-flag-not-linearizable",
+                "same-setter-race",
+                format!("global flag was {}, {threads} threads concurrently called {}() and returned, a thread without override then reads {seen}", !v, if v { "enable" } else { "disable" }),
+                obj().set("round", r).set("threads", threads),
+            );
+            break;
+        }
+    }
+    te::enable();
+    drop(te::local_take());
+}
+
 // ------------------------------------------------------------------------------ free-running
 
 #[derive(Clone, Copy, Debug)]
@@ -496,6 +626,12 @@ fn free_round(c: &mut Collector, rng: &mut Rng, threads: usize, per: usize, roun
             );
         }
     }
+    // final observation from the controller thread (no override): the value every linearization
+    // must end with
+    drop(te::local_take());
+    let fin = te::is_enabled();
+    let tmax = all.iter().map(|e| e.t1).max().unwrap_or(0) + 10;
+    all.push(Ev { thread: usize::MAX, op: GOp::Read(fin), t0: tmax, t1: tmax + 1 });
     c.add("free-running-global-events", all.len() as u64);
     if all.len() <= 14 {
         c.count("linearizability-checks");
@@ -611,8 +747,12 @@ fn main() {
         // Miri / TSan workload: a few hundred turnstile schedules and free-running rounds
         turnstile_exhaustive(&mut c, 2, 2, a.shard, a.nshards);
         turnstile_seeded(&mut c, a.seed, a.shard, 2, 24);
+        if a.shard == 0 {
+            sparse_observation(&mut c, 3, &[]);
+        }
+        same_setter_race(&mut c, 10);
         let mut rng = Rng::new(mix3(a.seed, a.shard, 0xF4EE));
-        for r in 0..(if thorough { 60 } else { 25 }) {
+        for r in 0..(if thorough { 60 } else { 16 }) {
             if !free_round(&mut c, &mut rng, 2 + (r % 2) as usize, 3, r) {
                 break;
             }
@@ -625,6 +765,10 @@ fn main() {
         turnstile_exhaustive(&mut c, 2, if thorough { 5 } else { 4 }, a.shard, a.nshards);
         turnstile_exhaustive(&mut c, 3, if thorough { 4 } else { 3 }, a.shard, a.nshards);
         turnstile_seeded(&mut c, a.seed, a.shard, if thorough { 400 } else { 40 }, 200);
+        if a.shard == 0 {
+            sparse_observation(&mut c, if thorough { 2100 } else { 520 }, &[767, 768, 769, 1023, 1024, 1025, 4095, 4096, 4097, 65535, 65536, 65537]);
+        }
+        same_setter_race(&mut c, if thorough { 40_000 } else { 2_500 });
         let mut rng = Rng::new(mix3(a.seed, a.shard, 0xF4EE));
         let rounds = if thorough { 400_000 } else { 30_000 };
         for r in 0..rounds {
